@@ -1175,7 +1175,7 @@ fn cmd_c13(n: usize) -> (u64, Vec<String>) {
 // ------------------------------------------------------------------------------------------------ which limit is in effect (C14)
 /// BOUNDED: real bash processes through StatefulExecutor + BashRunner: the smaller of the per-test-case timeout and what is left of
 /// the document timeout is the one that fires (and is reported as such), a document timeout of 0 means none, no timeout means none
-fn cmd_c14() -> (u64, Vec<String>) {
+fn cmd_c14(only: Option<(usize, usize)>) -> (u64, Vec<String>) {
     use scrut::executors::bash_runner::BashRunner;
     use scrut::executors::context::Context;
     use scrut::executors::error::{ExecutionError, ExecutionTimeout};
@@ -1183,57 +1183,76 @@ fn cmd_c14() -> (u64, Vec<String>) {
     use scrut::executors::runner::Runner;
     use scrut::executors::stateful_executor::StatefulExecutor;
     use std::time::Duration;
-    let work = tempfile::tempdir().expect("work dir");
-    let temp = tempfile::tempdir().expect("temp dir");
     let ms = Duration::from_millis;
-    // (per-test timeout, document timeout, command sleeps, expected)
-    let table: Vec<(Option<Duration>, Option<Duration>, &str, &str)> = vec![
-        (Some(ms(300)), Some(ms(5000)), "sleep 3", "index"),
-        (Some(ms(5000)), Some(ms(300)), "sleep 3", "total"),
-        (Some(ms(300)), None, "sleep 3", "index"),
-        (None, Some(ms(300)), "sleep 3", "total"),
+    // (per-test timeout, document timeout, command, expected). Limits that also apply to the quick `true` test cases are long enough (1.2 s)
+    // for a bash start on a loaded machine; the slow command (5 s) must be cut off within 4 s
+    let table: Vec<(Option<Duration>, Option<Duration>, &'static str, &'static str)> = vec![
+        (Some(ms(1200)), Some(ms(9000)), "sleep 5", "index"),
+        (Some(ms(9000)), Some(ms(1200)), "sleep 5", "total"),
+        (Some(ms(1200)), None, "sleep 5", "index"),
+        (None, Some(ms(1200)), "sleep 5", "total"),
         (None, Some(ms(0)), "sleep 0.5", "none"),
-        (None, Some(ms(5000)), "sleep 0.3", "none"),
-        (Some(ms(5000)), Some(ms(5000)), "true", "none"),
+        (None, Some(ms(9000)), "sleep 0.3", "none"),
+        (Some(ms(9000)), Some(ms(9000)), "true", "none"),
         // a per-test-case timeout is a limit of its own: also when the document is unlimited, and when both limits are the same length
-        (Some(ms(300)), Some(ms(0)), "sleep 3", "index"),
-        (Some(ms(5000)), Some(ms(0)), "sleep 0.3", "none"),
+        (Some(ms(1200)), Some(ms(0)), "sleep 5", "index"),
+        (Some(ms(9000)), Some(ms(0)), "sleep 0.3", "none"),
     ];
-    let mut bad = vec![];
-    let mut cases = 0u64;
-    for (tt, dt, cmd, want) in table {
+    let run_one = move |tt: Option<Duration>, dt: Option<Duration>, cmd: &'static str, want: &'static str, lead: usize| -> Option<String> {
+        let work = tempfile::tempdir().expect("work dir");
+        let temp = tempfile::tempdir().expect("temp dir");
+        let mut context = Context { work_directory: work.path().to_path_buf(), temp_directory: temp.path().to_path_buf(), file: std::path::PathBuf::from("doc.md"),
+            config: DocumentConfig { total_timeout: dt, ..DocumentConfig::default() } };
+        // second pass over the table (lead == 1): the per-test-case limit is not written on the test cases but comes from the document's
+        // `defaults` in the execution context (the layer the executor itself applies): it must be in effect when the limit is computed
+        let from_defaults = lead == 1 && tt.is_some();
+        if from_defaults { context.config.defaults.timeout = tt; }
+        let tt = if from_defaults { None } else { tt };
+        let mut tcs = vec![];
+        for _ in 0..lead { tcs.push(TestCase { title: "t".into(), shell_expression: "true".into(), expectations: vec![], exit_code: None, line_number: 1, config: TestCaseConfig { timeout: tt, ..TestCaseConfig::empty() } }); }
+        tcs.push(TestCase { title: "t".into(), shell_expression: cmd.into(), expectations: vec![], exit_code: None, line_number: 1 + lead, config: TestCaseConfig { timeout: tt, ..TestCaseConfig::empty() } });
+        tcs.push(TestCase { title: "t".into(), shell_expression: "true".into(), expectations: vec![], exit_code: None, line_number: 2 + lead, config: TestCaseConfig { timeout: tt, ..TestCaseConfig::empty() } });
+        let refs: Vec<&TestCase> = tcs.iter().collect();
+        let ex = StatefulExecutor::new(Box::new(|state: &std::path::Path| Box::new(BashRunner::new(&std::path::PathBuf::from("/bin/bash"), state)) as Box<dyn Runner>));
+        let started = std::time::Instant::now();
+        let got = match ex.execute_all(&refs, &context) {
+            Ok(os) if os.len() == tcs.len() => "none".to_string(),
+            Ok(os) => format!("{} outputs for {} test cases", os.len(), tcs.len()),
+            // the outputs stop at the aborted test case: nothing after it ran
+            Err(ExecutionError::Timeout(ExecutionTimeout::Index(i), os)) if i == lead && os.len() == lead + 1 => "index".to_string(),
+            Err(ExecutionError::Timeout(ExecutionTimeout::Total, os)) if os.len() == lead + 1 => "total".to_string(),
+            Err(ExecutionError::Timeout(t, os)) => format!("timeout {t:?} with {} outputs", os.len()),
+            Err(e) => format!("error {e}"),
+        };
+        let took = started.elapsed();
+        // the limit bounds the run: the 5 s command is cut off well before it ends
+        let late = want != "none" && took > ms(4000);
+        if got != want || late {
+            Some(format!("{{\"why\":{},\"case\":{}}}", jstr(&format!("C14: test timeout {tt:?}{}, document timeout {dt:?}, `{cmd}` as test case {}: outcome {got} after {took:?}, expected {want}{}", if from_defaults { " (from the context defaults)" } else { "" }, lead + 1, if late { " within the limit" } else { "" })), jstr(cmd)))
+        } else { None }
+    };
+    // the rows are independent executions: each runs in a process of its own (`verif-replay c14 <row> <lead>`; executors running side by
+    // side in ONE process disturb each other's child handling), all at the same time
+    if let Some((row, lead)) = only {
+        let (tt, dt, cmd, want) = table[row];
+        return (1, run_one(tt, dt, cmd, want, lead).into_iter().collect());
+    }
+    let exe = std::env::current_exe().expect("own path");
+    let mut children = vec![];
+    for row in 0..table.len() {
         // the slow test case first, or after a quick one that uses up none of the limits
         for lead in [0usize, 1] {
-            cases += 1;
-            let mut context = Context { work_directory: work.path().to_path_buf(), temp_directory: temp.path().to_path_buf(), file: std::path::PathBuf::from("doc.md"),
-                config: DocumentConfig { total_timeout: dt, ..DocumentConfig::default() } };
-            // second pass over the table (lead == 1): the per-test-case limit is not written on the test cases but comes from the document's
-            // `defaults` in the execution context (the layer the executor itself applies): it must be in effect when the limit is computed
-            let from_defaults = lead == 1 && tt.is_some();
-            if from_defaults { context.config.defaults.timeout = tt; }
-            let tt = if from_defaults { None } else { tt };
-            let mut tcs = vec![];
-            for _ in 0..lead { tcs.push(TestCase { title: "t".into(), shell_expression: "true".into(), expectations: vec![], exit_code: None, line_number: 1, config: TestCaseConfig { timeout: tt, ..TestCaseConfig::empty() } }); }
-            tcs.push(TestCase { title: "t".into(), shell_expression: cmd.into(), expectations: vec![], exit_code: None, line_number: 1 + lead, config: TestCaseConfig { timeout: tt, ..TestCaseConfig::empty() } });
-            tcs.push(TestCase { title: "t".into(), shell_expression: "true".into(), expectations: vec![], exit_code: None, line_number: 2 + lead, config: TestCaseConfig { timeout: tt, ..TestCaseConfig::empty() } });
-            let refs: Vec<&TestCase> = tcs.iter().collect();
-            let ex = StatefulExecutor::new(Box::new(|state: &std::path::Path| Box::new(BashRunner::new(&std::path::PathBuf::from("/bin/bash"), state)) as Box<dyn Runner>));
-            let started = std::time::Instant::now();
-            let got = match ex.execute_all(&refs, &context) {
-                Ok(os) if os.len() == tcs.len() => "none".to_string(),
-                Ok(os) => format!("{} outputs for {} test cases", os.len(), tcs.len()),
-                // the outputs stop at the aborted test case: nothing after it ran
-                Err(ExecutionError::Timeout(ExecutionTimeout::Index(i), os)) if i == lead && os.len() == lead + 1 => "index".to_string(),
-                Err(ExecutionError::Timeout(ExecutionTimeout::Total, os)) if os.len() == lead + 1 => "total".to_string(),
-                Err(ExecutionError::Timeout(t, os)) => format!("timeout {t:?} with {} outputs", os.len()),
-                Err(e) => format!("error {e}"),
-            };
-            let took = started.elapsed();
-            // the limit bounds the run: the 3 s command is cut off well before it ends (300 ms limit, generous scheduling allowance)
-            let late = want != "none" && took > ms(2500);
-            if got != want || late {
-                bad.push(format!("{{\"why\":{},\"case\":{}}}", jstr(&format!("C14: test timeout {tt:?}, document timeout {dt:?}, `{cmd}` as test case {}: outcome {got} after {took:?}, expected {want}{}", lead + 1, if late { " within the limit" } else { "" })), jstr(cmd)));
-            }
+            children.push(std::process::Command::new(&exe).args(["c14", &row.to_string(), &lead.to_string()]).stdout(std::process::Stdio::piped()).spawn().expect("spawn row"));
+        }
+    }
+    let cases = children.len() as u64;
+    let mut bad = vec![];
+    for c in children {
+        let out = c.wait_with_output().expect("row output");
+        let text = String::from_utf8_lossy(&out.stdout).to_string();
+        match serde_json::from_str::<serde_json::Value>(text.trim()) {
+            Ok(v) => for w in v["violations"].as_array().cloned().unwrap_or_default() { bad.push(w.to_string()); },
+            Err(_) => bad.push(format!("{{\"why\":{},\"case\":\"\"}}", jstr(&format!("C14: a row process gave no result: {text:?}")))),
         }
     }
     (cases, bad)
@@ -1507,7 +1526,7 @@ fn main() {
         "cram-probe" => cmd_cram_probe(),
         "c10-probe" => cmd_c10_probe(),
         "c15" => cmd_c15(args.get(2).and_then(|s| s.parse().ok()).unwrap_or(2)),
-        "c14" => cmd_c14(),
+        "c14" => cmd_c14(match (args.get(2).and_then(|s| s.parse().ok()), args.get(3).and_then(|s| s.parse().ok())) { (Some(r), Some(l)) => Some((r, l)), _ => None }),
         "leaves" => cmd_leaves(args.get(2).map(|s| s.as_str()).unwrap_or("markdown")),
         "glob" => cmd_glob(args.get(2).and_then(|s| s.parse().ok()).unwrap_or(3)),
         "c13" => cmd_c13(args.get(2).and_then(|s| s.parse().ok()).unwrap_or(1)),
